@@ -281,3 +281,35 @@ func TestC34Replay(t *testing.T) {
 		return c34Run(c, vstat.New(nil, "C34", ""))
 	})
 }
+
+// TestC34Seeds runs fixed regression cases: the inputs on which the pinned
+// tree was found to violate the property (finding F9), the suite's own cases
+// and range boundaries.
+func TestC34Seeds(t *testing.T) {
+	st := vstat.New(t, "C34", "fixed regression cases: F9 failing inputs (\"1.005\", \"8.2\", 2^64-1, 9007199254740990), the cases of utils/utils_test.go, range boundaries")
+	cases := []c34Case{
+		{Kind: "string", Int: "1", Frac: "005"},
+		{Kind: "string", Int: "8", Frac: "2"},
+		{Kind: "balance", Balance: ^uint64(0)},
+		{Kind: "balance", Balance: 9007199254740990},
+		{Kind: "balance", Balance: 1005000000},
+		{Kind: "balance", Balance: 1 << 63},
+		{Kind: "balance", Balance: 0},
+		{Kind: "balance", Balance: 1},
+		{Kind: "balance", Balance: 1000000000},
+		{Kind: "balance", Balance: 123456789},
+		{Kind: "balance", Balance: 1234567890},
+		{Kind: "balance", Balance: 9876543210},
+		{Kind: "string", Int: "0", Frac: ""},
+		{Kind: "string", Int: "0", Frac: "000000001"},
+		{Kind: "string", Int: "18446744073", Frac: "709551615"},
+		{Kind: "string", Int: "18446744073", Frac: ""},
+		{Kind: "string", Int: "18446744073", Frac: "7"},
+		{Kind: "string", Int: "9007199", Frac: "254740993"},
+		{Kind: "overprecise", Int: "0", Frac: "0000000001"},
+		{Kind: "overprecise", Int: "1", Frac: "0000000005"},
+	}
+	for _, c := range cases {
+		vstat.Run(t, st, c, func() error { return c34Run(c, st) })
+	}
+}
